@@ -101,10 +101,22 @@ def run(ctx):
                     bound = f
                     ctx.ok("grid", ctx.loc(f), "%s(t) = floor(MAX / t) * t: the largest on-grid price" % f.name)
 
+    # inlined views: private helpers of the agents module (e.g. extracted price-sampling functions) are spliced into their
+    # callers, except the recognised largest-on-grid-price helper whose call is itself the evidence the grid rule looks for
+    from analysis.inline import Inliner, default_policy
+    from analysis.query import FnQ
+    _inl = Inliner(ctx.prog, lambda caller, callee: default_policy(caller, callee) and (bound is None or callee.path != bound.path))
+    _qv = {}
+
+    def qv(f):
+        if f.path not in _qv:
+            ctx.analysed_fns.add(f.path)
+            _qv[f.path] = FnQ(m.w, _inl.inlined(f))
+        return _qv[f.path]
     # ------------------------------------------------------------------ every place_order reachable from agents
     n_sites = 0
     for f in fns:
-        q = m.q(f)
+        q = qv(f)
         for c in q.calls("place_order"):
             if not is_env_call(c, "place_order"):
                 continue
@@ -143,7 +155,7 @@ def run(ctx):
     for name, sidev, rnd, op in (("place_buy_limit_order", "Bid", "round_price_down", "Sub"), ("place_sell_limit_order", "Ask", "round_price_up", "Add"),
                                  ("place_buy_limit_order_market", "Bid", "round_price_down", "Sub"), ("place_sell_limit_order_market", "Ask", "round_price_up", "Add")):
         f = helpers[name]
-        q = m.q(f)
+        q = qv(f)
         pc = [c for c in q.calls("place_order") if is_env_call(c, "place_order")]
         ok = len(pc) == 1 and not pc[0].guards
         if ok:
@@ -291,12 +303,21 @@ def run(ctx):
                     e = e[2][0]
                 chain_ok = names == ["into_iter", "filter", "iter"] and e == ("param", f.params.index("orders") + 1, "orders") and not [n for n in ch[:-1] if n not in ("into_iter",)]
                 ctx.check(same(q.ret(), ("field", part, "0", "")), "cancel", name + "|returns-kept", ctx.loc(f), "returns the kept half of the partition", "returns %s" % render(q.ret())[:100])
+        if ok and not chain_ok:
+            # ---- explicit-loop idiom: `for id in orders { if status(id) != Active {continue}; if keep {remaining.push(id)} else {to_cancel.push(id)} }`
+            #      followed by `for id in to_cancel { env.cancel_order(id) }`, returning `remaining`
+            loop_ok, filt2 = cancel_loop_idiom(ctx, m, q, f, cc[0], name)
+            if loop_ok:
+                chain_ok = True
+                filt_ok = filt2
         ctx.check(ok and chain_ok, "cancel", name + "|only-own-active", cc[0].loc() if cc else ctx.loc(f),
                   "cancel_order is issued only for elements of `orders` that passed the filter and fell in the cancel half of the partition",
                   "cancel_order argument does not come from partition(filter(orders.iter())).1")
         cls = q.closures()
         for (cq, ops, cnames, _b) in cls:
             r = cq.ret()
+            if filt_ok:
+                break
             if r[0] == "call" and r[4] == "eq":
                 okf = r[2][0][0] == "call" and r[2][0][4] == "order_status" and r[2][1][0] == "agg" and r[2][1][2].endswith("Status::Active") and r[2][0][2][1][0] == "param"
                 ctx.check(okf, "cancel", name + "|filter", ctx.loc(cq.fn), "filter predicate: env.order_status(id) == Active", "filter predicate is %s" % render(r))
@@ -304,64 +325,156 @@ def run(ctx):
         ctx.check(filt_ok, "cancel", name + "|filter-present", ctx.loc(f), "an Active-status filter precedes the random selection")
 
     # ------------------------------------------------------------------ random agents
+    # Judged on a per-slot model that is the same for `iter_mut().enumerate().map(|(n, slot)| ..).collect()`, for the same
+    # closure calling a private placement helper, and for an explicit `for` loop that updates the slots in place:
+    # SLOT = this agent's Option<order id>, I = the slot's position (trader id), everything expressed through them.
+    from analysis.iterelem import loop_item, rewrite, rewrite_with, I as POS
+    from analysis.cfg import render_atom
+    SLOT = ("var", "slot")
+
+    def slotify(e):
+        """replace `self.orders[i]` by SLOT"""
+        def is_elem(x):
+            return x[0] == "index" and x[2] == POS and fld(x[1], "orders")
+        return rewrite_with(e, is_elem, SLOT)
+
     for f in updates:
         tag = f.impl_adt.split("::")[-1]
         if "Random" not in tag:
             continue
-        q = m.q(f)
+        q = qv(f)
         cls = q.closures()
-        if len(cls) != 1:
-            ctx.lost("random", tag + " closure")
+        canon = None
+        head = None
+        if len(cls) == 1 and q.calls("map") and q.calls("collect"):
+            cq0, ops, cnames, _b = cls[0]
+            bq = FnQ(m.w, _inl.inlined(cq0.fn))
+            ctx.analysed_fns.add(cq0.fn.path)
+            chain = [c.name for c in q.calls() if c.name in ("iter_mut", "iter", "into_iter", "enumerate", "map", "collect", "skip", "take", "filter", "rev", "step_by", "zip", "chain")]
+            src_ok = [n for n in chain if n not in ("iter_mut", "iter", "into_iter")] in (["enumerate", "map", "collect"],) and any(fld(c.args[0], "orders") or any(fld(x, "orders") for x in walk(c.args[0]))
+                                                                                                                            for c in q.calls(("iter_mut", "iter", "into_iter")))
+            ow = [w for w in q.writes(field="orders") if w.root == ("param", 1, "self")]
+            ctx.check(src_ok and len(ow) == 1, "random", tag + "|all-slots", ctx.loc(f), "every slot is visited once and rewritten from the per-slot result (%s)" % ".".join(chain),
+                      "slot iteration chain %s / %d writes of the slot table" % (chain, len(ow)))
+            sym = ("agg", "tuple", "", (POS, SLOT), ())
+
+            def canon(e, _bq=bq, _sym=sym):   # noqa: E731
+                return rewrite_with(e, lambda x: x[0] == "param" and x[1] == 2, _sym)
+            form = "closure"
+        else:
+            bq = q
+            nx = []
+            for c in q.calls("next"):
+                if q.cfg.in_loop(c.b):
+                    sy, bounds = loop_item(q, c)
+                    if sy is not None and any(bd[0] == "coll" and (fld(bd[1], "orders") or any(fld(x, "orders") for x in walk(bd[1]))) for bd in bounds):
+                        nx.append((c, sy))
+            if len(nx) != 1:
+                ctx.lost("random", tag + ": neither a per-slot closure over self.orders nor a loop over self.orders (without restricting adapters) found")
+                continue
+            ln, sy = nx[0]
+            head = sorted(q.cfg.loops_containing(ln.b), key=lambda h: len(q.body.loop_body(h)))[0]
+            ctx.ok("random", ln.loc(), tag + ": every slot is visited once by a loop over self.orders (no restricting adapter)")
+
+            def canon(e, _ln=ln, _sy=sy):   # noqa: E731
+                return slotify(rewrite(e, _ln, _sy))
+            form = "loop"
+
+        def is_slot(x):
+            return x == SLOT or (x[0] == "call" and x[4] in ("take", "as_ref", "as_mut", "copied", "cloned", "clone") and x[2] and is_slot(x[2][0]))
+
+        def is_payload(x):
+            x = canon(strip_unwrap(x))
+            if is_slot(x):
+                return True     # (origin expressions are normalised with `unwrap()` dropped: `slot.unwrap()` reads as the slot)
+            if x[0] == "field" and x[2] == "0" and x[1][0] == "downcast" and x[1][2] == "Some":
+                return is_slot(x[1][1])
+            if x[0] == "call" and x[4] in ("unwrap", "expect", "unwrap_unchecked") and x[2]:
+                return is_slot(x[2][0])
+            return False
+
+        def a_some(a):
+            if a[0] == "variant" and a[2] == ("Some",):
+                return is_slot(canon(a[1]))
+            if a[0] == "bool" and a[2] is True and a[1][0] == "call" and a[1][4] == "is_some" and a[1][2]:
+                return is_slot(canon(a[1][2][0]))
+            return False
+
+        def a_active(a):
+            return a[0] == "cmp" and a[1] == "eq" and a[2][0] == "call" and a[2][4] == "order_status" and is_payload(a[2][2][1]) and a[3][0] == "agg" and a[3][2].endswith("Status::Active")
+
+        def a_acts(a):
+            return a[0] == "cmp" and ((a[1] == "lt" and a[2][0] == "call" and a[2][4] == "gen" and path_text(a[3]).endswith("activity_rate")) or
+                                      (a[1] == "gt" and a[3][0] == "call" and a[3][4] == "gen" and path_text(a[2]).endswith("activity_rate")))
+
+        def a_loop(a):
+            return a[0] == "variant" and a[1][0] == "call" and a[1][4] == "next"
+        cc = [c for c in bq.calls("cancel_order") if is_env_call(c, "cancel_order")]
+        pc = [c for c in bq.calls("place_order") if is_env_call(c, "place_order")]
+        if len(cc) != 1 or len(pc) != 1:
+            ctx.bad("random", tag + "|shape", ctx.loc(f), "random agent per-slot body has %d cancel and %d place calls" % (len(cc), len(pc)))
             continue
-        cq, ops, cnames, _b = cls[0]
-        ctx.analysed_fns.add(cq.fn.path)
-        slot = ("field", ("param", 2, "_2"), "1", "tuple")
-        idx = ("field", ("param", 2, "_2"), "0", "tuple")
-        cc = [c for c in cq.calls("cancel_order") if is_env_call(c, "cancel_order")]
-        pc = [c for c in cq.calls("place_order") if is_env_call(c, "place_order")]
-        ok = len(cc) == 1 and len(pc) == 1
-        if ok:
-            g = cc[0].guards
-            has_some = any(a[0] == "variant" and a[2] == ("Some",) and same(a[1], slot) for a in g)
-            has_act = any(a[0] == "cmp" and a[1] == "eq" and a[2][0] == "call" and a[2][4] == "order_status" and same(a[2][2][1], slot) and a[3][0] == "agg" and a[3][2].endswith("Status::Active") for a in g)
-            ctx.check(has_some and has_act and same(cc[0].args[1], slot), "random", tag + "|cancel", cc[0].loc(), "cancels its own slot's order only when the slot is Some and that order is Active",
-                      "cancel under [%s] of %s" % (cc[0].gtext(), render(cc[0].args[1])))
-            for c in (cc[0], pc[0]):
-                ps = [a[3] for a in c.guards if a[0] == "cmp" and a[1] == "lt" and a[2][0] == "call" and a[2][4] == "gen"]
-                ctx.check(len(ps) == 1 and path_text(ps[0]).endswith("activity_rate"), "activity", "%s|%s|prob" % (tag, c.name), c.loc(),
-                          "an agent acts iff a fresh draw < its activity_rate", "%s is gated by %s" % (c.name, [render(x) for x in ps]))
-            # place on the complementary branch: not reachable together with the cancel
-            compl = not cq.cfg.can_reach(cc[0].b, pc[0].b) and not cq.cfg.can_reach(pc[0].b, cc[0].b)
-            ctx.check(compl, "random", tag + "|exclusive", pc[0].loc(), "placing and cancelling are on complementary branches (at most one live order per slot)")
-            p = pc[0]
-            tid = p.arg_named("trader_id")
-            vol = p.arg_named("vol")
-            okargs = tid[0] == "conv" and same(tid[1], idx) and full_range(vol, "vol_range")
-            if "asset" in p.formals:
-                okargs = okargs and mentions(p.arg_named("asset"), "asset")
-            ctx.check(okargs, "ownership", tag + "|place-args", p.loc(), "trader id = slot index, volume drawn from vol_range%s" % (", own asset" if "asset" in p.formals else ""),
-                      "random agent places with %s" % p.text()[:160])
-            r = cq.ret()
+        c0, p0 = cc[0], pc[0]
+        g = c0.guards
+        ctx.check(any(a_some(a) for a in g) and any(a_active(a) for a in g) and is_payload(c0.args[1]), "random", tag + "|cancel", c0.loc(),
+                  "cancels its own slot's order only when the slot is Some and that order is Active",
+                  "cancel under [%s] of %s" % (c0.gtext(), render(canon(strip_unwrap(c0.args[1])))))
+        for c in (c0, p0):
+            acts = [a for a in c.guards if a_acts(a)]
+            ctx.check(len(acts) >= 1, "activity", "%s|%s|prob" % (tag, c.name), c.loc(), "an agent acts iff a fresh draw < its activity_rate",
+                      "%s is not gated by `draw < activity_rate` (conditions: %s)" % (c.name, c.gtext()))
+            extra = [a for a in c.guards if not (a_acts(a) or a_some(a) or a_active(a) or a_loop(a) or a[0] == "opaque"
+                                                 or (a[0] == "variant" and is_slot(canon(a[1]))) or (a[0] == "bool" and a[1][0] == "call" and a[1][4] in ("is_some", "is_none"))
+                                                 or (a[0] == "cmp" and a[1] == "ne" and a[2][0] == "call" and a[2][4] == "order_status") or (a[0] in ("bool",) and a[1][0] in ("pred_and", "pred_or")))]
+            ctx.check(not extra, "activity", "%s|%s|only" % (tag, c.name), c.loc(), "nothing but the activity draw and the slot's state decides %s" % c.name,
+                      "%s additionally depends on [%s]" % (c.name, " && ".join(render_atom(a)[:70] for a in extra)))
+        # complementary branches within one visit of the slot: neither call can follow the other
+        inside = None if head is None else q.body.loop_body(head)
+
+        def reaches(a_, b_):
+            if inside is None:
+                return bq.cfg.can_reach(a_, b_)
+            outside = [x for x in range(len(bq.body.blocks)) if x not in inside] + [head]
+            return b_ in bq.cfg.reach_from(a_, cut_blocks=[x for x in outside if x != a_])
+        compl = not reaches(c0.b, p0.b) and not reaches(p0.b, c0.b)
+        ctx.check(compl, "random", tag + "|exclusive", p0.loc(), "placing and cancelling are on complementary branches (at most one live order per slot)",
+                  "a slot can both cancel and place in one visit")
+        tid = canon(strip_unwrap(p0.arg_named("trader_id")))
+        vol = p0.arg_named("vol")
+        tid_ok = tid[0] == "conv" and tid[1] == POS
+        if not tid_ok and form == "loop":
+            from .stepmodel import loop_counter
+            tid_ok = loop_counter(q, head, strip_unwrap(p0.arg_named("trader_id"))) is not None
+        okargs = tid_ok and full_range(vol, "vol_range")
+        if "asset" in p0.formals:
+            okargs = okargs and mentions(p0.arg_named("asset"), "asset")
+        ctx.check(okargs, "ownership", tag + "|place-args", p0.loc(), "trader id = slot position, volume drawn from vol_range%s" % (", own asset" if "asset" in p0.formals else ""),
+                  "random agent places with trader id %s, volume %s (expected the slot's position, counted once per slot, and gen_range(vol_range.0..vol_range.1))" % (render(tid)[:60], render(vol)[:60]))
+        # what the slot holds afterwards
+        if form == "closure":
+            r = canon(bq.ret())
             alts = r[1] if r[0] == "phi" else (r,)
             kinds = set()
             for a in alts:
-                if same(a, slot):
+                if is_slot(a):
                     kinds.add("keep")
                 elif a[0] == "agg" and a[2].endswith("Option::None"):
                     kinds.add("clear")
-                elif a[0] == "agg" and a[2].endswith("Option::Some") and a[3][0][0] == "call" and a[3][0][4] == "place_order":
+                elif a[0] == "agg" and a[2].endswith("Option::Some") and any(x[0] == "call" and x[4] == "place_order" for x in walk(a[3][0])):
                     kinds.add("new")
                 else:
                     kinds.add("other:" + render(a)[:40])
-            ctx.check(kinds == {"keep", "clear", "new"}, "random", tag + "|slot", ctx.loc(cq.fn), "slot becomes: unchanged (inactive) / None (after cancel) / Some(new id) (after place)",
+            ctx.check(kinds == {"keep", "clear", "new"}, "random", tag + "|slot", ctx.loc(bq.fn), "slot becomes: unchanged (inactive) / None (after cancel) / Some(new id) (after place)",
                       "slot may become %s" % sorted(kinds))
         else:
-            ctx.bad("random", tag + "|shape", ctx.loc(f), "random agent closure has %d cancel and %d place calls" % (len(cc), len(pc)))
-        # the slots are rewritten from the closure results over all slots
-        ow = [w for w in q.writes(field="orders") if w.root == ("param", 1, "self")]
-        chain = [c.name for c in q.calls() if c.name in ("iter_mut", "enumerate", "map", "collect", "skip", "take", "filter", "rev", "step_by")]
-        ctx.check(len(ow) == 1 and chain == ["iter_mut", "enumerate", "map", "collect"], "random", tag + "|all-slots", ctx.loc(f), "every slot is visited once (iter_mut().enumerate().map(..).collect())",
-                  "slot iteration chain %s" % chain)
+            clears = [c for c in bq.calls("take") if c.args and is_slot(canon(c.args[0]))] + \
+                     [w for w in bq.writes() if canon(w.addr) == SLOT and w.val[0] == "agg" and w.val[2].endswith("Option::None")]
+            sets = [w for w in bq.writes() if canon(w.addr) == SLOT and w.val[0] == "agg" and w.val[2].endswith("Option::Some")]
+            ok_clear = any(bq.body.dominates(x.b, c0.b) or bq.body.dominates(c0.b, x.b) for x in clears)
+            ok_set = len(sets) == 1 and any(x[0] == "call" and x[4] == "place_order" for x in walk(sets[0].val)) and bq.body.dominates(p0.b, sets[0].b)
+            other = [w for w in bq.writes() if canon(w.addr) == SLOT and w not in sets and not (w.val[0] == "agg" and w.val[2].endswith("Option::None"))]
+            ctx.check(ok_clear and ok_set and not other, "random", tag + "|slot", ctx.loc(f), "slot becomes None on the cancel path and Some(new id) after a placement, otherwise it is left alone",
+                      "slot updates: %d clears (on the cancel path: %s), sets %s, other writes %s" % (len(clears), ok_clear, [w.text()[:50] for w in sets], [w.text()[:50] for w in other]))
 
     # ------------------------------------------------------------------ Bernoulli census
     n_b = 0
@@ -406,18 +519,83 @@ def run(ctx):
     ctx.assume("order ids held by an agent exist in its environment (they were returned by that environment)")
 
 
+def cancel_loop_idiom(ctx, m, q, f, cancel_call, name):
+    """explicit-loop form of the cancellation helper; returns (recognised, active-filter present)"""
+    from analysis.iterelem import iterator_expr
+    nxs = [c for c in q.calls("next") if q.cfg.in_loop(c.b)]
+    if len(nxs) != 2:
+        return False, False
+    def item_of(c):
+        return ("field", ("downcast", c.result, "Some"), "0", "std::option::Option")
+    src_loop = cancel_loop = None
+    for c in nxs:
+        e = iterator_expr(q, c)
+        names = []
+        while e is not None and e[0] == "call" and e[2] and e[4] in ("into_iter", "iter", "copied", "cloned"):
+            names.append(e[4])
+            e = e[2][0]
+        if e is not None and e == ("param", f.params.index("orders") + 1, "orders"):
+            src_loop = c
+        elif e is not None and e[0] == "local":
+            cancel_loop = (c, e)
+    if src_loop is None or cancel_loop is None:
+        return False, False
+    cl_next, to_cancel = cancel_loop
+    # the cancel call: argument = item of the loop over the local list, no other condition
+    if not same(strip_unwrap(cancel_call.args[1]), item_of(cl_next)):
+        return False, False
+    if [a for a in cancel_call.guards if not (a[0] == "variant" and a[2] in (("Some",), ("None",)))]:
+        return False, False
+    item = item_of(src_loop)
+
+    def is_active(a):
+        return a[0] == "cmp" and a[1] == "eq" and a[2][0] == "call" and a[2][4] == "order_status" and same(strip_unwrap(a[2][2][1]), item) and a[3][0] == "agg" and a[3][2].endswith("Status::Active")
+
+    def draw_lt_p(a):      # u < p_cancel  (cancel)
+        return a[0] == "cmp" and ((a[1] == "lt" and a[2][0] == "call" and a[2][4] == "gen" and a[3][0] == "param" and a[3][2] == "p_cancel") or
+                                  (a[1] == "gt" and a[3][0] == "call" and a[3][4] == "gen" and a[2][0] == "param" and a[2][2] == "p_cancel"))
+
+    def draw_ge_p(a):      # u >= p_cancel (keep)
+        return a[0] == "cmp" and ((a[1] == "ge" and a[2][0] == "call" and a[2][4] == "gen" and a[3][0] == "param" and a[3][2] == "p_cancel") or
+                                  (a[1] == "le" and a[3][0] == "call" and a[3][4] == "gen" and a[2][0] == "param" and a[2][2] == "p_cancel"))
+    pushes = [c for c in q.calls("push")]
+    to_c = [c for c in pushes if c.args[0] == to_cancel]
+    kept_local = q.ret()
+    kept = [c for c in pushes if c.args[0] == kept_local]
+    others = [c for c in pushes if c not in to_c and c not in kept]
+    ok = len(to_c) == 1 and len(kept) == 1 and not others
+    if not ok:
+        return False, False
+    tc, kp = to_c[0], kept[0]
+    def extra(c):
+        return [a for a in c.guards if not (a[0] == "variant" and a[2] == ("Some",)) and not is_active(a) and not draw_lt_p(a) and not draw_ge_p(a)]
+    ok = same(strip_unwrap(tc.args[1]), item) and same(strip_unwrap(kp.args[1]), item) and not extra(tc) and not extra(kp) \
+        and any(draw_lt_p(a) for a in tc.guards) and any(draw_ge_p(a) for a in kp.guards)
+    filt = any(is_active(a) for a in tc.guards) and any(is_active(a) for a in kp.guards)
+    ctx.check(ok, "cancel", name + "|loop-idiom", tc.loc(), "each own id that is Active goes to the cancel list iff draw < p_cancel, else to the returned list; the cancel list is then cancelled element by element",
+              "explicit-loop cancellation helper not of the expected form (cancel push under [%s], keep push under [%s])" % (tc.gtext(), kp.gtext()))
+    ctx.check(filt, "cancel", name + "|filter", tc.loc(), "only ids whose order_status is Active are considered (both lists)", "the Active-status test does not guard both lists")
+    return ok, filt
+
+
 def discharge(m, q, p):
     e = p.expr
     f = q.fn
     if p.kind in ("unwrap", "expect") and e is not None:
-        if e[0] == "call" and e[4] in ("place_order", "place_buy_limit_order", "place_sell_limit_order", "place_buy_limit_order_market", "place_sell_limit_order_market"):
+        SUBMIT = ("place_order", "place_buy_limit_order", "place_sell_limit_order", "place_buy_limit_order_market", "place_sell_limit_order_market")
+        alts = e[1] if e[0] == "phi" else (e,)
+        if all(x[0] == "call" and x[4] in SUBMIT for x in alts):
             return "submission cannot be rejected: the price is on the grid (grid rule) under the assumption agent tick = environment tick"
         if e[0] == "call" and e[4] == "choose":
             a = e[2][0]
             if a[0] == "agg" and a[1] == "array" and len(a[3]) >= 1:
                 return "choose on a constant non-empty array"
-        if e[0] == "call" and e[4] == "try_from" and f.kind == "Closure":
-            return "TraderId::try_from(slot index) (assumption: agent count fits u32)"
+        if e[0] == "call" and e[4] == "try_from" and e[2]:
+            a = e[2][0]
+            root, _names = field_chain(a)
+            from_enum = any(x[0] == "call" and x[4] == "next" and "Enumerate" in x[1] for x in walk(a))
+            if f.kind == "Closure" or from_enum or (root[0] == "param" and f.body.local_ty(root[1]) == "usize"):
+                return "TraderId::try_from(slot index) (assumption: agent count fits u32)"
         if e[0] == "call" and e[4] == "new" and "LogNormal" in e[1]:
             return "LogNormal::new with finite parameters (assumption)"
         # Option::unwrap under a dominating is_some of the same place
